@@ -300,20 +300,18 @@ Proof.
   - exists out. split; [exact E|]. unfold zlen. rewrite Len. unfold zrange. rewrite length_zseq. lia.
 Qed.
 
-(* Index safety and "link has a successor" for the complete model, given that the set-up state of
-   this instance passes the (verified) invariant check. *)
-Theorem model_safe image mask fp :
-  accepted image mask fp = true -> prep_check (prepare image mask fp) = true ->
-  match grey_reconstruction image mask fp with
-  | Ok (out, d) => d = 0 /\ zlen out = zlen image
+(* Index safety and "link has a successor" for the run of any set-up state that passes the
+   (verified) invariant check. *)
+Theorem run_prep_safe p :
+  prep_check p = true ->
+  match run_prep p with
+  | Ok (out, d) => d = 0 /\ zlen out = p_H p
   | OutOfFuel => True
   | Oob => False
   | Rejected => False
   end.
 Proof.
-  intros Hacc Hpc. unfold grey_reconstruction. rewrite Hacc. cbn [negb].
-  set (p := prepare image mask fp) in *.
-  assert (EH : p_H p = zlen image) by reflexivity.
+  intros Hpc. unfold run_prep.
   unfold prep_check in Hpc. cbv zeta in Hpc. set (g := prep_geom p) in *.
   apply andb_prop in Hpc; destruct Hpc as [Hpc Cm].
   apply andb_prop in Hpc; destruct Hpc as [Hpc Ci].
@@ -336,7 +334,20 @@ Proof.
     cbn [bind]; try exact L.
   destruct L as [I' D'].
   destruct (finish_ok p s' (p_K p) (vals (p_st p)) G EPW I' (inrange_b_sound _ _ Cm)) as (out & E & Len).
-  rewrite E. cbn [bind]. split; [lia|]. rewrite Len. exact EH.
+  rewrite E. cbn [bind]. split; [lia|]. exact Len.
+Qed.
+
+Theorem model_safe image mask fp :
+  accepted image mask fp = true -> prep_check (prepare image mask fp) = true ->
+  match grey_reconstruction image mask fp with
+  | Ok (out, d) => d = 0 /\ zlen out = zlen image
+  | OutOfFuel => True
+  | Oob => False
+  | Rejected => False
+  end.
+Proof.
+  intros Hacc Hpc. unfold grey_reconstruction. rewrite Hacc. cbn [negb].
+  exact (run_prep_safe _ Hpc).
 Qed.
 
 (* the hypotheses are satisfiable: the set-up of a concrete instance passes the check *)
@@ -366,7 +377,7 @@ Lemma fp_offsets_bound fp o : Z.odd (zlen fp) = true -> Z.odd (width fp) = true 
   - (zlen fp / 2) <= fst o <= zlen fp / 2 /\ - (width fp / 2) <= snd o <= width fp / 2.
 Proof.
   intros O1 O2. apply Z.odd_spec in O1, O2. destruct O1 as [m1 E1]. destruct O2 as [m2 E2].
-  unfold fp_offsets. intros Hin. apply in_flat_map in Hin. destruct Hin as [a [Ha Hin]].
+  unfold fp_offsets, fp_offsets_at. intros Hin. apply in_flat_map in Hin. destruct Hin as [a [Ha Hin]].
   apply in_flat_map in Hin. destruct Hin as [b [Hb Hin]].
   apply in_zrange in Ha, Hb.
   destruct (fp_get fp a b && negb ((a =? zlen fp / 2) && (b =? width fp / 2))); cbn [In] in Hin; [|tauto].
@@ -379,8 +390,8 @@ Qed.
 Theorem prepare_strides_ok image mask fp : Z.odd (zlen fp) = true -> Z.odd (width fp) = true ->
   Forall (stride_ok (prep_geom (prepare image mask fp))) (p_strides (prepare image mask fp)).
 Proof.
-  intros O1 O2. apply Forall_forall. intros st Hin. unfold prepare in Hin. cbn [p_strides] in Hin.
+  intros O1 O2. apply Forall_forall. intros st Hin. unfold prepare, prepare_offs in Hin. cbn [p_strides] in Hin.
   apply in_map_iff in Hin. destruct Hin as [o [<- Ho]].
   destruct (fp_offsets_bound fp o O1 O2 Ho) as [B1 B2].
-  exists (fst o), (snd o). unfold prepare, prep_geom, gPW. cbn [p_H p_W p_p0 p_p1 gW gp0 gp1]. lia.
+  exists (fst o), (snd o). unfold prepare, prepare_offs, prep_geom, gPW. cbn [p_H p_W p_p0 p_p1 gW gp0 gp1]. lia.
 Qed.
